@@ -72,6 +72,15 @@ func Contradictions(c *q.Ctx) {
 	if len(sites) == 0 {
 		c.OK("K1c", "packages of the anchored functions", "no branch tests a call's value where its error is known to be non-nil", "-", fmt.Sprintf("%d package(s) swept", len(pkgs)))
 	}
+	// K1d: no comparison of a value with itself
+	selfs := q.SelfComparisons(c.P, in)
+	for _, sc := range selfs {
+		c.Sites++
+		c.Fail("K1d", load.QualName(q.Top(sc.Fn)), "no comparison of a value with itself: `"+sc.Txt+"`", c.At(sc.Op), "both operands are the same value: the comparison decides nothing (one side was meant to be the other object)")
+	}
+	if len(selfs) == 0 {
+		c.OK("K1d", "packages of the anchored functions", "no comparison of a value with itself", "-", fmt.Sprintf("%d package(s) swept", len(pkgs)))
+	}
 	// K16: no closure that outlives its loop iteration captures a variable that the loop re-assigns
 	caps := q.LoopCaptures(c.P, in)
 	for _, l := range caps {
